@@ -17,46 +17,60 @@
 (***************************************************************************)
 EXTENDS Integers, FiniteSets, TLC
 
-CONSTANTS G, Texts, Dev_ReadAfterUnlock
+CONSTANTS G, Texts, Dev_ReadAfterUnlock,
+          Nested,              \* the set of goroutines whose evaluation resolves a CTE: the selector steps call
+                               \* ExecReader again, on the same goroutine, before the outer call returns
+          Dev_EvalUnderLock    \* deviation: the mutex is released only after the selector has been evaluated
 
-VARIABLES sel, pc, holder, cache, open, got
-cvars == <<sel, pc, holder, cache, open, got>>
+VARIABLES sel, pc, holder, cache, open, got, inner
+cvars == <<sel, pc, holder, cache, open, got, inner>>
 
 Gs == 1..G
 CInit ==
     /\ sel \in [Gs -> Texts]
     /\ pc = [g \in Gs |-> "start"] /\ holder = 0 /\ cache = {} /\ open = {} /\ got = [g \in Gs |-> ""]
+    /\ inner = [g \in Gs |-> "none"]       \* "none" | "waiting" (the nested call wants the mutex) | "done"
 
 Lock(g) == /\ pc[g] = "start" /\ holder = 0
-           /\ holder' = g /\ pc' = [pc EXCEPT ![g] = "locked"] /\ UNCHANGED <<sel, cache, open, got>>
+           /\ holder' = g /\ pc' = [pc EXCEPT ![g] = "locked"] /\ UNCHANGED <<sel, cache, open, got, inner>>
 
 \* the lookup `_, ok := cache[selector]` is a read access; a miss leads to parse + store
 Lookup(g) == /\ pc[g] = "locked"
              /\ pc' = [pc EXCEPT ![g] = IF sel[g] \in cache THEN "stored" ELSE "writing"]
              /\ open' = IF sel[g] \in cache THEN open ELSE open \cup {[g |-> g, kind |-> "write"]}
-             /\ UNCHANGED <<sel, holder, cache, got>>
+             /\ UNCHANGED <<sel, holder, cache, got, inner>>
 EndWrite(g) == /\ pc[g] = "writing"
                /\ cache' = cache \cup {sel[g]} /\ open' = open \ {[g |-> g, kind |-> "write"]}
-               /\ pc' = [pc EXCEPT ![g] = "stored"] /\ UNCHANGED <<sel, holder, got>>
+               /\ pc' = [pc EXCEPT ![g] = "stored"] /\ UNCHANGED <<sel, holder, got, inner>>
 
 Unlock(g) == /\ holder = g
-             /\ \/ (~Dev_ReadAfterUnlock /\ pc[g] = "read")
+             /\ \/ (~Dev_ReadAfterUnlock /\ ~Dev_EvalUnderLock /\ pc[g] = "read")
                 \/ (Dev_ReadAfterUnlock /\ pc[g] = "stored")
-             /\ holder' = 0 /\ pc' = [pc EXCEPT ![g] = IF Dev_ReadAfterUnlock THEN "unlocked" ELSE "evaluating"]
-             /\ UNCHANGED <<sel, cache, open, got>>
+                \/ (Dev_EvalUnderLock /\ pc[g] = "evaluated")
+             /\ holder' = 0
+             /\ pc' = [pc EXCEPT ![g] = IF Dev_ReadAfterUnlock THEN "unlocked" ELSE IF Dev_EvalUnderLock THEN "done" ELSE "evaluating"]
+             /\ UNCHANGED <<sel, cache, open, got, inner>>
 
 BeginRead(g) == /\ pc[g] = IF Dev_ReadAfterUnlock THEN "unlocked" ELSE "stored"
                 /\ open' = open \cup {[g |-> g, kind |-> "read"]}
-                /\ pc' = [pc EXCEPT ![g] = "reading"] /\ UNCHANGED <<sel, holder, cache, got>>
+                /\ pc' = [pc EXCEPT ![g] = "reading"] /\ UNCHANGED <<sel, holder, cache, got, inner>>
 EndRead(g) == /\ pc[g] = "reading"
               /\ got' = [got EXCEPT ![g] = IF sel[g] \in cache THEN sel[g] ELSE "missing"]
               /\ open' = open \ {[g |-> g, kind |-> "read"]}
-              /\ pc' = [pc EXCEPT ![g] = IF Dev_ReadAfterUnlock THEN "evaluating" ELSE "read"]
-              /\ UNCHANGED <<sel, holder, cache>>
+              /\ pc' = [pc EXCEPT ![g] = IF Dev_ReadAfterUnlock \/ Dev_EvalUnderLock THEN "evaluating" ELSE "read"]
+              /\ UNCHANGED <<sel, holder, cache, inner>>
 
-Eval(g) == /\ pc[g] = "evaluating" /\ pc' = [pc EXCEPT ![g] = "done"] /\ UNCHANGED <<sel, holder, cache, open, got>>
+\* evaluation of the selector steps; for a Nested goroutine they resolve a CTE, whose FROM path goes through
+\* ExecReader again: the nested call needs the (non-reentrant) mutex, takes it, and gives it back
+NestedWant(g) == /\ pc[g] = "evaluating" /\ g \in Nested /\ inner[g] = "none"
+                 /\ inner' = [inner EXCEPT ![g] = "waiting"] /\ UNCHANGED <<sel, pc, holder, cache, open, got>>
+NestedRun(g) == /\ pc[g] = "evaluating" /\ inner[g] = "waiting" /\ holder = 0
+                /\ inner' = [inner EXCEPT ![g] = "done"] /\ UNCHANGED <<sel, pc, holder, cache, open, got>>
+Eval(g) == /\ pc[g] = "evaluating" /\ (g \in Nested => inner[g] = "done")
+           /\ pc' = [pc EXCEPT ![g] = IF Dev_EvalUnderLock THEN "evaluated" ELSE "done"]
+           /\ UNCHANGED <<sel, holder, cache, open, got, inner>>
 
-CNext == \E g \in Gs : Lock(g) \/ Lookup(g) \/ EndWrite(g) \/ Unlock(g) \/ BeginRead(g) \/ EndRead(g) \/ Eval(g)
+CNext == \E g \in Gs : Lock(g) \/ Lookup(g) \/ EndWrite(g) \/ Unlock(g) \/ BeginRead(g) \/ EndRead(g) \/ Eval(g) \/ NestedWant(g) \/ NestedRun(g)
 CSpec == CInit /\ [][CNext]_cvars /\ WF_cvars(CNext)
 
 ---------------------------------------------------------------------------
@@ -64,8 +78,10 @@ CTypeOK == holder \in 0..G /\ cache \subseteq Texts
 \* no map access is in progress while another goroutine writes the map
 NoOverlap == \A a, b \in open : (a.g # b.g) => (a.kind = "read" /\ b.kind = "read")
 \* every goroutine evaluates with the parse of its own text
-OwnEntry == \A g \in Gs : pc[g] \in {"evaluating", "done"} => got[g] = sel[g]
+OwnEntry == \A g \in Gs : pc[g] \in {"evaluating", "evaluated", "done"} => got[g] = sel[g]
 \* map accesses by the holder only (as coded now)
 UnderLock == ~Dev_ReadAfterUnlock => \A a \in open : holder = a.g
+\* nobody waits for a mutex it holds itself (a re-entrant ExecReader under a held lock never returns)
+NoSelfDeadlock == \A g \in Gs : ~(inner[g] = "waiting" /\ holder = g)
 AllDone == <>(\A g \in Gs : pc[g] = "done")
 =============================================================================
